@@ -1,16 +1,575 @@
 ---------------------------- MODULE ContractsElem ----------------------------
 (***************************************************************************)
-(* Contracts for C12-C18 (constants, roots and powers, exponential,        *)
-(* logarithmic, trigonometric and hyperbolic families).                    *)
+(* Contracts for C12-C18: constants and angle conversions, roots and       *)
+(* integer powers, the exponential, logarithmic, trigonometric and         *)
+(* hyperbolic families.  The oracle is the ball arithmetic of Elementary:  *)
+(* every accuracy clause is decided three-valued ("yes" / "no" /           *)
+(* "undecided"); only "no" is a violation, "undecided" is counted.         *)
+(* Forward functions (exp, sin, ...) are enclosed directly; logarithms are *)
+(* enclosed by one rigorous Newton step from the claimed result; inverse   *)
+(* trigonometric / hyperbolic functions are checked by monotone inversion  *)
+(* through the forward function.                                           *)
 (***************************************************************************)
-EXTENDS ContractsMisc
+EXTENDS ContractsMisc, Elementary
 
-InRangeTF(x, lo2, hi2) == InDom(x, lo2, hi2)
+VB(x) == BExact(Value(x))
+Undecided(p, c) == {<<"undecided", p \o ":" \o c>>}
+Verdict(p, c, v3) == IF v3 = "no" THEN Fail(p, c) ELSE IF v3 = "undecided" THEN Undecided(p, c) ELSE {}
+Not3(a) == IF a = "yes" THEN "no" ELSE IF a = "no" THEN "yes" ELSE a
+Geq3(x, y) == Leq3(y, x)
+\* |rv - F| <= Tol   (rv exact dyadic, F and Tol balls)
+Within3(rv, F, Tol) == Leq3(BAbs(BSub(F, BExact(rv))), Tol)
+TolRel(F, k) == BScale2(BAbs(F), -k)                    \* 2^-k |F|
+BPow2(k) == BExact(DPow2(k))
+FinTF(x) == x.hi.k = "f" /\ x.lo.k = "f"
+\* value comparisons of an exact dyadic against small rationals / powers of two
+DLeqInt(v, n) == DCmp(v, DInt(n)) <= 0
+DGeqInt(v, n) == DCmp(v, DInt(n)) >= 0
+AbsLeqPow2(v, k) == DCmpAbs(v, DPow2(k)) <= 0
+AbsGeqPow2(v, k) == DCmpAbs(v, DPow2(k)) >= 0
+ExactValue(r, d) == r.t = "tf" /\ Valid(r.x) /\ DCmp(Value(r.x), d) = 0
+C01In(x, r) == IF InDom(x, -1000, 1000) THEN C01Of(r) ELSE {}
+\* a ball of relative radius 2^-k around the exact dyadic d (tolerances that mention the unknown
+\* true value are evaluated with the claimed value and this slack, soundly in both directions)
+Fuzzy(d, k) == IF d.mag = <<>> THEN BExact(d) ELSE BallOf(d, RScale(RAbsD(d), -k))
 
+\* A tolerance known only as a ball (it mentions the unknown true value) and a test that is monotone
+\* in the tolerance (a larger tolerance is easier to meet): "yes" if the test passes at the lower end,
+\* "no" if it fails at the upper end.  Evaluating at exact end points avoids the dependency problem
+\* of ball arithmetic.
+DownD(d) == TopLimbs(d, 4)
+UpD(d) == LET t == TopLimbs(d, 4) IN IF t = d THEN d ELSE [t EXCEPT !.mag = Add(@, <<1>>)]
+Decide(tol, T(_)) ==
+  LET lo == DownD(BLoD(tol))   hi == UpD(BHiD(tol)) IN
+  IF lo.mag # <<>> /\ ~lo.neg /\ T(lo) = "yes" THEN "yes"
+  ELSE IF T(hi) = "no" THEN "no" ELSE "undecided"
+
+\* ==========================================================================
+\* C13  roots and integer powers
+OnePlusEps(num, k) == DAdd(DOne, [neg |-> FALSE, mag |-> num, e |-> -k])      \* 1 + num 2^-k
+OneMinusEps(num, k) == DSub(DOne, [neg |-> FALSE, mag |-> num, e |-> -k])
+DCube(x) == DMul(x, DSqr(x))
+
+SqrtFails(x, r) ==
+  IF ~Valid(x) THEN {Skip}
+  ELSE IF r.t # "tf" THEN Fail("C13", "sqrt_panics")
+  ELSE LET v == Value(x) IN
+       IF v.mag = <<>> THEN Chk(ExactValue(r, DZero), "C13", "sqrt_zero")
+       ELSE IF v.neg THEN Chk(~Valid(r.x), "C13", "sqrt_negative_valid")
+       ELSE IF ~WInRange(x.hi, -900, 900) THEN {Skip}
+       ELSE C01Of(r) \cup
+            Chk(Valid(r.x) /\ ~Value(r.x).neg
+                /\ DCmp(DMul(DSqr(OneMinusEps(<<32>>, 106)), v), DSqr(Value(r.x))) <= 0
+                /\ DCmp(DSqr(Value(r.x)), DMul(DSqr(OnePlusEps(<<32>>, 106)), v)) <= 0, "C13", "sqrt_bound")
+
+CbrtFails(x, r) ==
+  IF ~Valid(x) THEN {Skip}
+  ELSE IF r.t # "tf" THEN Fail("C13", "cbrt_panics")
+  ELSE LET v == Value(x) IN
+       IF v.mag = <<>> THEN Chk(ExactValue(r, DZero), "C13", "cbrt_zero")
+       ELSE IF ~WInRange(x.hi, -900, 900) THEN {Skip}
+       ELSE C01Of(r) \cup
+            Chk(Valid(r.x) /\ Value(r.x).neg = v.neg
+                /\ DCmpAbs(DMul(DCube(OneMinusEps(<<16>>, 106)), v), DCube(Value(r.x))) <= 0
+                /\ DCmpAbs(DCube(Value(r.x)), DMul(DCube(OnePlusEps(<<16>>, 106)), v)) <= 0, "C13", "cbrt_bound")
+
+HypotFails(x, y, r) ==
+  IF ~(InDomNZ(x, -400, 400) /\ InDomNZ(y, -400, 400)) THEN {Skip}
+  ELSE IF r.t # "tf" THEN Fail("C13", "hypot_panics")
+  ELSE LET t == DAdd(DSqr(Value(x)), DSqr(Value(y))) IN
+       C01Of(r) \cup
+       Chk(Valid(r.x) /\ ~Value(r.x).neg
+           /\ DCmp(DMul(DSqr(OneMinusEps(<<48>>, 106)), t), DSqr(Value(r.x))) <= 0
+           /\ DCmp(DSqr(Value(r.x)), DMul(DSqr(OnePlusEps(<<48>>, 106)), t)) <= 0, "C13", "hypot_bound")
+
+\* x^n for a BigNat n >= 1 by binary powering in ball arithmetic (most significant bit first)
+\* (saturating: once the magnitude leaves 2^+-100000 the powering stops and `sat` is set, so that
+\* exponents stay far inside TLC's 32-bit integers)
+BPowNat(xb, n) ==
+  LET L == BitLen(n) IN
+  FoldLeft(LAMBDA acc, i :
+             IF acc.sat \/ acc.b.m.mag = <<>> THEN acc
+             ELSE LET s == BSqr(acc.b)
+                      t == IF TestBit(n, i) THEN BMul(s, xb) ELSE s
+                      me == MagExp(t.m)
+                  IN [b |-> t, sat |-> me > 100000 \/ me < -100000],
+           [b |-> xb, sat |-> FALSE], [j \in 1..(L - 1) |-> L - 1 - j])
+
+PowiFails(x, n, r) ==
+  PowiStructFails(x, n, r) \cup
+  (IF ~Valid(x) \/ r.t # "tf" \/ IsIntZero(n) \/ IsIntOne(n) \/ IsZeroTF(x) \/ ~WInRange(x.hi, -1000, 1000) THEN {}
+   ELSE LET PS == BPowNat(VB(x), n.mag)
+            PW == PS.b
+            he == BAbsHiExp(PW)
+            inrange == ~PS.sat /\ PW.m.mag # <<>> /\ RelTight(PW, 120) /\ he <= 900 /\ he >= -898
+            tol == [neg |-> FALSE, mag |-> Add(MulLimb(n.mag, 6), <<16>>), e |-> -106]      \* (6|n| + 16) 2^-106
+        IN IF ~inrange THEN {}
+           ELSE C01Of(r) \cup
+                (IF ~Valid(r.x) THEN Fail("C13", "powi_not_valid")
+                 ELSE IF ~n.neg THEN Verdict("C13", "powi_bound", Within3(Value(r.x), PW, BMulD(BAbs(PW), tol)))
+                 ELSE Verdict("C13", "powi_bound", Within3(DOne, BMulD(PW, Value(r.x)), BExact(tol)))))
+
+\* ==========================================================================
+\* C14  exponential family
+ExpFails(x, r) ==
+  IF ~Valid(x) THEN {Skip}
+  ELSE IF r.t # "tf" THEN Fail("C14", "exp_panics")
+  ELSE LET v == Value(x) IN
+       C01In(x, r) \cup
+       (IF v.mag = <<>> THEN Chk(ExactValue(r, DOne), "C14", "exp_zero_is_one")
+        ELSE IF DLeqInt(v, -750) THEN Chk(ExactValue(r, DZero), "C14", "exp_underflow_not_zero")
+        ELSE IF DGeqInt(v, 710) THEN Chk(r.x.hi.k # "f", "C14", "exp_overflow_finite")
+        ELSE IF DGeqInt(v, -600) /\ DLeqInt(v, 700)
+             THEN IF ~Valid(r.x) THEN Fail("C14", "exp_not_valid")
+                  ELSE LET E == BExp(VB(x)) IN Verdict("C14", "exp_bound", Within3(Value(r.x), E, TolRel(E, 100)))
+        ELSE {})
+
+Exp2Fails(x, r) ==
+  IF ~Valid(x) THEN {Skip}
+  ELSE IF r.t # "tf" THEN Fail("C14", "exp2_panics")
+  ELSE LET v == Value(x) IN
+       C01In(x, r) \cup
+       (IF DLeqInt(v, -1080) THEN Chk(ExactValue(r, DZero), "C14", "exp2_underflow_not_zero")
+        ELSE IF DGeqInt(v, 1024) THEN Chk(r.x.hi.k # "f", "C14", "exp2_overflow_finite")
+        ELSE IF DIsInt(v) /\ DGeqInt(v, -1022) /\ DLeqInt(v, 1022)
+             THEN Chk(ExactValue(r, DPow2(DToInt(v))), "C14", "exp2_integer_not_exact")
+        ELSE IF DGeqInt(v, -900) /\ DLeqInt(v, 1000)
+             THEN IF ~Valid(r.x) THEN Fail("C14", "exp2_not_valid")
+                  ELSE LET E == BExp(BMul(VB(x), Ln2B)) IN Verdict("C14", "exp2_bound", Within3(Value(r.x), E, TolRel(E, 93)))
+        ELSE {})
+
+\* x < -7/10, x > 41/100 decided exactly
+LtRat(v, p, q) == DCmp(DMul(v, DInt(q)), DInt(p)) < 0
+GtRat(v, p, q) == DCmp(DMul(v, DInt(q)), DInt(p)) > 0
+ExpM1Fails(x, r) ==
+  IF ~Valid(x) THEN {Skip}
+  ELSE IF r.t # "tf" THEN Fail("C14", "exp_m1_panics")
+  ELSE LET v == Value(x) IN
+       C01In(x, r) \cup
+       (IF v.mag = <<>> THEN Chk(ExactValue(r, DZero), "C14", "exp_m1_zero")
+        ELSE IF ~(AbsGeqPow2(v, -1000) /\ DLeqInt(v, 700)) THEN {}
+        ELSE IF ~Valid(r.x) THEN Fail("C14", "exp_m1_not_valid")
+        ELSE LET k == IF AbsLeqPow2(v, -8) \/ LtRat(v, -7, 10) \/ GtRat(v, 41, 100) THEN 100 ELSE 45
+                 F == IF DLeqInt(v, -800) THEN BallOf(DInt(-1), RPow2(-1000)) ELSE BExpm1(VB(x))
+             IN Verdict("C14", "exp_m1_bound", Within3(Value(r.x), F, TolRel(F, k))))
+
+\* ---- rigorous logarithm from a hint ----------------------------------------------------
+\* ln(1 + rho) for a ball rho with |rho| < 2^-20:  rho - rho^2/2 +- |rho|^3
+Ln1pTiny(rho) ==
+  LET r2 == BSqr(rho)
+      a == BSub(rho, BScale2(r2, -1))
+      e3 == 3 * BAbsHiExp(rho)
+  IN [a EXCEPT !.r = RAdd(@, RPow2(e3))]
+\* enclosure of ln(xb) for a positive ball xb given any dyadic hint h; [ok, far, b]:
+\*   ok  = b encloses ln x;  far = the hint is certainly off by more than 2^-22
+LnStep(xb, h) ==
+  IF h.mag # <<>> /\ DMsb(h) >= 11 THEN [ok |-> FALSE, far |-> TRUE, b |-> Hopeless] ELSE     \* |ln| < 745 in binary64
+  LET E == BExp(BExact(h))
+      rho == BDiv(BSub(xb, E), E)
+      small == BAbsHiExp(rho) <= -20
+      far == CertGtD(BAbs(rho), DPow2(-21))
+  IN [ok |-> small, far |-> far, b |-> IF small THEN BAdd(BExact(h), Ln1pTiny(rho)) ELSE Hopeless]
+\* two steps when the first one is not sharp yet (the hint may be a mere f64 approximation)
+LnFrom(xb, h) ==
+  LET s1 == LnStep(xb, h) IN
+  IF ~s1.ok \/ RelTight(s1.b, 140) \/ (s1.b.m.mag = <<>>) \/ RExp(s1.b.r) <= -160 THEN s1
+  ELSE LnStep(xb, s1.b.m)
+\* the same for ln(1 + v) with relative accuracy for tiny v, hint h for ln(1+v)
+Ln1pStep(vb, h) ==
+  IF h.mag # <<>> /\ DMsb(h) >= 11 THEN [ok |-> FALSE, far |-> TRUE, b |-> Hopeless] ELSE
+  LET M == BExpm1(BExact(h))
+      rho == BDiv(BSub(vb, M), BAdd(BInt(1), M))
+      small == BAbsHiExp(rho) <= -20
+      far == CertGtD(BAbs(rho), DPow2(-21))
+  IN [ok |-> small, far |-> far, b |-> IF small THEN BAdd(BExact(h), Ln1pTiny(rho)) ELSE Hopeless]
+
+InvLn2B == BRecip(Ln2B)
+InvLn10B == BRecip(Ln10B)
+
+PowfFails(x, y, hint, r) ==
+  IF ~(Valid(x) /\ Valid(y)) THEN {Skip}
+  ELSE IF r.t # "tf" THEN Fail("C14", "powf_panics")
+  ELSE LET vx == Value(x)   vy == Value(y) IN
+       IF vx.mag = <<>> /\ vy.mag = <<>> THEN Chk(~Valid(r.x), "C14", "zero_powf_zero_valid")
+       ELSE IF vx.mag = <<>> THEN (IF ~vy.neg THEN Chk(ExactValue(r, DZero), "C14", "zero_powf_positive") ELSE {})
+       ELSE IF vy.mag = <<>> THEN Chk(ExactValue(r, DOne), "C14", "powf_zero_exponent")
+       ELSE IF vx.neg /\ ~DIsInt(vy) THEN Chk(~Valid(r.x), "C14", "negative_base_fractional_exponent_valid")
+       ELSE IF ~(AbsGeqPow2(vx, -30) /\ AbsLeqPow2(vx, 30) /\ DCmpAbs(vy, DInt(10)) <= 0) THEN {}
+       ELSE IF ~Valid(hint) THEN Undecided("C14", "powf_hint")
+       ELSE LET L == LnFrom(BExact(DAbs(vx)), Value(hint)) IN
+            IF ~L.ok THEN Undecided("C14", "powf_hint")
+            ELSE IF ~Valid(r.x) THEN Fail("C14", "powf_not_valid")
+            ELSE LET yl == BMul(BExact(vy), L.b)
+                     F == BExp(yl)
+                     tol == BMul(TolRel(F, 100), BAdd(BInt(1), BAbs(yl)))
+                     neg == vx.neg /\ DIntIsOdd(vy)
+                 IN C01Of(r)
+                    \cup Chk(Value(r.x).neg = neg, "C14", "powf_sign")
+                    \cup Verdict("C14", "powf_bound", Within3(DAbs(Value(r.x)), F, tol))
+
+\* ==========================================================================
+\* C15  logarithms
+LogDomain(x) == Valid(x) /\ WInRange(x.hi, -1000, 960)
+Pos(x) == x.hi.mag # <<>> /\ ~x.hi.neg
+
+\* which = "ln" | "log2" | "log10"
+LogFails(which, x, r) ==
+  IF ~LogDomain(x) THEN {Skip}
+  ELSE IF r.t # "tf" THEN Fail("C15", which \o "_panics")
+  ELSE LET v == Value(x) IN
+       IF ~Pos(x) THEN Chk(~Valid(r.x), "C15", which \o "_nonpositive_valid")
+       ELSE IF DCmp(v, DOne) = 0 THEN Chk(ExactValue(r, DZero), "C15", which \o "_one_not_zero")
+       ELSE IF which = "log2" /\ IsPow2D(v) /\ DMsb(v) >= -1000 /\ DMsb(v) <= 960
+            THEN Chk(ExactValue(r, DInt(DMsb(v))), "C15", "log2_power_of_two_not_exact")
+       ELSE IF ~Valid(r.x) THEN Fail("C15", which \o "_not_valid")
+       ELSE LET rv == Value(r.x)
+                scale == IF which = "ln" THEN BInt(1) ELSE IF which = "log2" THEN Ln2B ELSE Ln10B
+                inv == IF which = "ln" THEN BInt(1) ELSE IF which = "log2" THEN InvLn2B ELSE InvLn10B
+                hint == TopLimbs(DNorm(BMul(BExact(rv), scale).m), 9)
+                L == LnFrom(BExact(v), hint)
+            IN C01Of(r) \cup
+               (IF L.far THEN Fail("C15", which \o "_bound")
+                ELSE IF ~L.ok THEN Undecided("C15", which \o "_bound")
+                ELSE LET F == IF which = "ln" THEN L.b ELSE BMul(L.b, inv)
+                         tol == IF which = "ln" THEN BScale2(BAdd(BInt(1), BAbs(F)), -101)
+                                ELSE IF which = "log2" THEN BAdd(TolRel(F, 101), BPow2(-92))
+                                ELSE BScale2(BAdd(BInt(1), BAbs(F)), -100)
+                     IN Verdict("C15", which \o "_bound", Within3(rv, F, tol)))
+
+Ln1pFails(x, r) ==
+  IF ~Valid(x) THEN {Skip}
+  ELSE IF r.t # "tf" THEN Fail("C15", "ln_1p_panics")
+  ELSE LET v == Value(x) IN
+       IF v.mag = <<>> THEN Chk(ExactValue(r, DZero), "C15", "ln_1p_zero")
+       ELSE IF DLeqInt(v, -1) THEN Chk(~Valid(r.x), "C15", "ln_1p_below_minus_one_valid")
+       ELSE IF ~(AbsGeqPow2(v, -1000) /\ WInRange(x.hi, -1000, 960)) THEN {Skip}
+       ELSE IF ~Valid(r.x) THEN Fail("C15", "ln_1p_not_valid")
+       ELSE LET rv == Value(r.x)
+                L == Ln1pStep(VB(x), TopLimbs(DNorm(rv), 9))
+                k == IF AbsLeqPow2(v, -8) \/ DCmp(DScale2(v, 2), DInt(3)) >= 0 THEN 100 ELSE 45
+            IN C01Of(r) \cup
+               (IF L.far THEN Fail("C15", "ln_1p_bound")
+                ELSE IF ~L.ok THEN Undecided("C15", "ln_1p_bound")
+                ELSE Verdict("C15", "ln_1p_bound", Within3(rv, L.b, TolRel(L.b, k))))
+
+\* ==========================================================================
+\* C16  sin, cos, sin_cos, tan
+TrigDomain(x) == Valid(x) /\ AbsLeqPow2(Value(x), 20)
+NonFiniteArg(x) == x.hi.k # "f" \/ x.lo.k # "f"
+
+SinBound(v, rv, sc) ==
+  Verdict("C16", "sin_abs_bound", Within3(rv, sc.s, BPow2(-66)))
+  \cup (IF CertLeq(BAbs(BExact(v)), BScale2(PiB, -2))
+        THEN Verdict("C16", "sin_rel_bound", Within3(rv, sc.s, TolRel(sc.s, 64))) ELSE {})
+CosBound(rv, sc) == Verdict("C16", "cos_abs_bound", Within3(rv, sc.c, BPow2(-66)))
+
+TrigFails(op, x, r) ==
+  IF NonFiniteArg(x) THEN (IF r.t = "tf" THEN Chk(~Valid(r.x), "C16", "invalid_argument_valid_result")
+                           ELSE IF r.t = "tf2" THEN Chk(~Valid(r.x) /\ ~Valid(r.y), "C16", "invalid_argument_valid_result")
+                           ELSE Fail("C16", op \o "_panics"))
+  ELSE IF ~TrigDomain(x) THEN {Skip}
+  ELSE IF r.t = "panic" THEN Fail("C16", op \o "_panics")
+  ELSE LET v == Value(x) IN
+       C01Of(r) \cup
+       (IF v.mag = <<>>
+        THEN (CASE op = "sin" \/ op = "tan" -> Chk(ExactValue(r, DZero), "C16", op \o "_zero")
+                [] op = "cos" -> Chk(ExactValue(r, DOne), "C16", "cos_zero")
+                [] op = "sin_cos" -> Chk(r.t = "tf2" /\ Valid(r.x) /\ Valid(r.y) /\ DCmp(Value(r.x), DZero) = 0
+                                         /\ DCmp(Value(r.y), DOne) = 0, "C16", "sin_cos_zero"))
+        ELSE IF ~(IF r.t = "tf2" THEN Valid(r.x) /\ Valid(r.y) ELSE Valid(r.x)) THEN Fail("C16", op \o "_not_valid")
+        ELSE LET sc == BSinCos(VB(x)) IN
+             CASE op = "sin" -> SinBound(v, Value(r.x), sc)
+               [] op = "cos" -> CosBound(Value(r.x), sc)
+               [] op = "sin_cos" -> SinBound(v, Value(r.x), sc) \cup CosBound(Value(r.y), sc)
+               [] op = "tan" ->
+                    \* |r - S/C| <= 2^-50 max(|S/C|, 2^-30) + 2^-80 (1 + (S/C)^2), multiplied by C^2 (S^2 + C^2 = 1)
+                    LET rv == Value(r.x)
+                        C2 == BSqr(sc.c)
+                        lhs == BMul(BAbs(BSub(BMulD(sc.c, rv), sc.s)), BAbs(sc.c))
+                        sc2 == BAbs(BMul(sc.s, sc.c))
+                        t1a == BAdd(BScale2(sc2, -50), BPow2(-80))
+                        t1b == BAdd(BScale2(C2, -80), BPow2(-80))
+                    IN Verdict("C16", "tan_bound", Or3(Leq3(lhs, t1a), Leq3(lhs, t1b))))
+
+\* ==========================================================================
+\* C17  asin, acos, atan, atan2
+\* sin and cos of rv + dl for a tiny ball dl (|dl| < 2^-40) from S = sin rv, C = cos rv
+\* sin d = d - d^3/6 +- |d|^5 ;  cos d = 1 - d^2/2 +- d^4
+SinD(dl) == LET d3 == BMul(dl, BSqr(dl)) IN [BSub(dl, BDivInt(d3, 6)) EXCEPT !.r = RAdd(@, RPow2(5 * BAbsHiExp(dl)))]
+CosD(dl) == [BSub(BInt(1), BScale2(BSqr(dl), -1)) EXCEPT !.r = RAdd(@, RPow2(4 * BAbsHiExp(dl)))]
+SinShift(sc, dl) == BAdd(BMul(sc.s, CosD(dl)), BMul(sc.c, SinD(dl)))
+CosShift(sc, dl) == BSub(BMul(sc.c, CosD(dl)), BMul(sc.s, SinD(dl)))
+
+AsinFails(x, r) ==
+  IF ~Valid(x) THEN {Skip}
+  ELSE IF r.t # "tf" THEN Fail("C17", "asin_panics")
+  ELSE LET v == Value(x) IN
+       IF DCmpAbs(v, DOne) > 0 THEN Chk(~Valid(r.x), "C17", "asin_out_of_domain_valid")
+       ELSE IF v.mag = <<>> THEN Chk(ExactValue(r, DZero), "C17", "asin_zero")
+       ELSE IF ~Valid(r.x) THEN Fail("C17", "asin_not_valid")
+       ELSE IF ~AbsLeqPow2(Value(r.x), 2) THEN Fail("C17", "asin_bound")
+       ELSE LET rv == Value(r.x)
+                rb == BExact(rv)
+                vb == BExact(v)
+            IN C01Of(r) \cup
+               (IF DCmpAbs(v, DOne) = 0
+                THEN Verdict("C17", "asin_one", Within3(rv, IF v.neg THEN BNeg(PiHalfB) ELSE PiHalfB, BPow2(-100)))
+                ELSE LET relt == BScale2(BAbs(Fuzzy(rv, 40)), -43)
+                         dl == IF CertLeq(relt, BPow2(-45)) THEN relt ELSE IF CertLeq(BPow2(-45), relt) THEN BPow2(-45)
+                               ELSE BallOf(DPow2(-45), RPow2(-80))
+                         sc == BSinCos(rb)
+                         T(d) == LET db == BExact(d)
+                                     up == BAdd(rb, db)
+                                     dn == BSub(rb, db)
+                                     upper == Or3(Geq3(up, PiHalfB), And3(Geq3(up, BNeg(PiHalfB)), Leq3(vb, SinShift(sc, db))))
+                                     lower == Or3(Leq3(dn, BNeg(PiHalfB)), And3(Leq3(dn, PiHalfB), Leq3(SinShift(sc, BNeg(db)), vb)))
+                                 IN And3(upper, lower)
+                     IN Verdict("C17", "asin_bound", Decide(dl, T)))
+
+AcosFails(x, r) ==
+  IF ~Valid(x) THEN {Skip}
+  ELSE IF r.t # "tf" THEN Fail("C17", "acos_panics")
+  ELSE LET v == Value(x) IN
+       IF DCmpAbs(v, DOne) > 0 THEN Chk(~Valid(r.x), "C17", "acos_out_of_domain_valid")
+       ELSE IF DCmp(v, DOne) = 0 THEN Chk(ExactValue(r, DZero), "C17", "acos_one")
+       ELSE IF ~Valid(r.x) THEN Fail("C17", "acos_not_valid")
+       ELSE IF ~AbsLeqPow2(Value(r.x), 2) THEN Fail("C17", "acos_bound")
+       ELSE LET rv == Value(r.x)
+                rb == BExact(rv)
+                vb == BExact(v)
+            IN C01Of(r) \cup
+               (IF DCmp(v, DInt(-1)) = 0 THEN Verdict("C17", "acos_minus_one", Within3(rv, PiB, BPow2(-100)))
+                ELSE LET dl == BPow2(-45)
+                         sc == BSinCos(rb)
+                         up == BAdd(rb, dl)
+                         dn == BSub(rb, dl)
+                         \* cos decreases on [0, pi]:  A <= r + d  <=>  r + d >= pi  or  (r + d >= 0 and cos(r + d) <= v)
+                         upper == Or3(Geq3(up, PiB), And3(Geq3(up, BInt(0)), Leq3(CosShift(sc, dl), vb)))
+                         lower == Or3(Leq3(dn, BInt(0)), And3(Leq3(dn, PiB), Leq3(vb, CosShift(sc, BNeg(dl)))))
+                     IN Verdict("C17", "acos_bound", And3(upper, lower)))
+
+AtanFails(x, r) ==
+  IF ~Valid(x) THEN {Skip}
+  ELSE IF r.t # "tf" THEN Fail("C17", "atan_panics")
+  ELSE LET v == Value(x) IN
+       IF v.mag = <<>> THEN Chk(ExactValue(r, DZero), "C17", "atan_zero")
+       ELSE IF ~AbsLeqPow2(v, 60) THEN {Skip}
+       ELSE IF ~Valid(r.x) THEN Fail("C17", "atan_not_valid")
+       ELSE IF ~AbsLeqPow2(Value(r.x), 2) THEN Fail("C17", "atan_bound")
+       ELSE LET rv == Value(r.x)
+                rb == BExact(rv)
+                vb == BExact(v)
+                dl == BScale2(BAbs(Fuzzy(rv, 40)), -70)
+                sc == BSinCos(rb)
+                \* tan increases on (-pi/2, pi/2):  A <= r + d  <=>  r + d >= pi/2  or  (r + d > -pi/2 and v cos <= sin)
+                T(d) == LET db == BExact(d)
+                            up == BAdd(rb, db)
+                            dn == BSub(rb, db)
+                            upper == Or3(Geq3(up, PiHalfB), And3(Geq3(up, BNeg(PiHalfB)), Leq3(BMul(vb, CosShift(sc, db)), SinShift(sc, db))))
+                            lower == Or3(Leq3(dn, BNeg(PiHalfB)), And3(Leq3(dn, PiHalfB), Leq3(SinShift(sc, BNeg(db)), BMul(vb, CosShift(sc, BNeg(db))))))
+                        IN And3(upper, lower)
+            IN C01Of(r) \cup Verdict("C17", "atan_bound", Decide(dl, T))
+
+\* correctly rounded double-double of a real enclosed by a (tight) ball: [ok, x]
+CorrectDD(b) ==
+  LET h1 == RN(BLoD(b))   h2 == RN(BHiD(b)) IN
+  IF h1 # h2 \/ h1.k # "f" THEN [ok |-> FALSE, x |-> TF(NaN, NaN)]
+  ELSE LET rest == BSub(b, BExact(D(h1)))
+           l1 == RN(BLoD(rest))   l2 == RN(BHiD(rest))
+       IN IF l1 # l2 THEN [ok |-> FALSE, x |-> TF(NaN, NaN)] ELSE [ok |-> TRUE, x |-> TF(h1, l1)]
+
+Atan2Fails(y, x, r) ==
+  IF ~(Valid(x) /\ Valid(y)) THEN {Skip}
+  ELSE IF r.t # "tf" THEN Fail("C17", "atan2_panics")
+  ELSE LET vx == Value(x)   vy == Value(y) IN
+       IF vx.mag = <<>> /\ vy.mag = <<>> THEN {Skip}
+       ELSE IF vy.mag = <<>>
+            THEN (IF ~x.hi.neg THEN Chk(ExactValue(r, DZero), "C17", "atan2_positive_x_axis")
+                  ELSE LET c == CorrectDD(PiB) IN
+                       IF ~c.ok THEN Undecided("C17", "atan2_axis")
+                       ELSE Chk(r.x = (IF y.hi.neg THEN NegTF(c.x) ELSE c.x), "C17", "atan2_negative_x_axis"))
+       ELSE IF vx.mag = <<>>
+            THEN LET c == CorrectDD(PiHalfB) IN
+                 IF ~c.ok THEN Undecided("C17", "atan2_axis")
+                 ELSE Chk(r.x = (IF vy.neg THEN NegTF(c.x) ELSE c.x), "C17", "atan2_y_axis")
+       ELSE IF ~(WInRange(x.hi, -30, 30) /\ WInRange(y.hi, -30, 30)) THEN {Skip}
+       ELSE IF ~Valid(r.x) THEN Fail("C17", "atan2_not_valid")
+       ELSE IF ~AbsLeqPow2(Value(r.x), 2) THEN Fail("C17", "atan2_bound")
+       ELSE LET rv == Value(r.x)
+                rb == BExact(rv)
+                sc == BSinCos(rb)
+                dl == BScale2(BAbs(Fuzzy(rv, 40)), -69)
+                num == BAbs(BSub(BMulD(sc.c, vy), BMulD(sc.s, vx)))                   \* rho |sin(theta - r)|
+                den == BAdd(BMulD(sc.c, vx), BMulD(sc.s, vy))                         \* rho cos(theta - r)
+                T(d) == LET db == BExact(d)
+                            tand == [db EXCEPT !.r = RAdd(@, RPow2(3 * BAbsHiExp(db) + 1))]     \* tan d = d +- 2|d|^3
+                        IN And3(Leq3(BInt(0), den), Leq3(num, BMul(tand, den)))
+            IN C01Of(r)
+               \cup Chk(rv.mag # <<>> /\ rv.neg = vy.neg, "C17", "atan2_sign")
+               \cup Verdict("C17", "atan2_bound", Decide(dl, T))
+
+\* ==========================================================================
+\* C18  hyperbolic functions
+\* exp(d) for a tiny ball d (|d| < 2^-30):  1 + d + d^2/2 +- |d|^3
+ExpTiny(dl) == [BAdd(BAdd(BInt(1), dl), BScale2(BSqr(dl), -1)) EXCEPT !.r = RAdd(@, RPow2(3 * BAbsHiExp(dl)))]
+
+HypFwdFails(op, x, r) ==
+  IF ~Valid(x) THEN {Skip}
+  ELSE IF r.t # "tf" THEN Fail("C18", op \o "_panics")
+  ELSE LET v == Value(x) IN
+       C01In(x, r) \cup
+       (IF v.mag = <<>> THEN Chk(ExactValue(r, IF op = "cosh" THEN DOne ELSE DZero), "C18", op \o "_zero")
+        ELSE IF DCmpAbs(v, DInt(600)) > 0 THEN {}
+        ELSE IF ~Valid(r.x) THEN Fail("C18", op \o "_not_valid")
+        ELSE LET rv == Value(r.x) IN
+             CASE op = "cosh" ->
+                    \* |2 r E - (E^2 + 1)| <= 2^-100 (E^2 + 1)
+                    LET E == BExp(VB(x))   s == BAdd(BSqr(E), BInt(1)) IN
+                    Verdict("C18", "cosh_bound", Leq3(BAbs(BSub(BMulD(BScale2(E, 1), rv), s)), BScale2(s, -100)))
+               [] op = "sinh" ->
+                    \* |2 r E - (E^2 - 1)| <= 2^-100 |E^2 - 1| + 2^-101 2E
+                    LET E == BExp(VB(x))   s == BSub(BSqr(E), BInt(1)) IN
+                    Verdict("C18", "sinh_bound", Leq3(BAbs(BSub(BMulD(BScale2(E, 1), rv), s)),
+                                                       BAdd(BScale2(BAbs(s), -100), BScale2(E, -100))))
+               [] op = "tanh" ->
+                    \* |r (E2 + 1) - (E2 - 1)| <= 2^-100 |E2 - 1| + 2^-101 (E2 + 1),  E2 = exp(2x)
+                    LET E2 == BExp(BScale2(VB(x), 1))   p == BAdd(E2, BInt(1))   m == BSub(E2, BInt(1)) IN
+                    Verdict("C18", "tanh_bound", Leq3(BAbs(BSub(BMulD(p, rv), m)),
+                                                       BAdd(BScale2(BAbs(m), -100), BScale2(p, -101)))))
+
+HypInvFails(op, x, r) ==
+  IF ~Valid(x) THEN {Skip}
+  ELSE IF r.t # "tf" THEN Fail("C18", op \o "_panics")
+  ELSE LET v == Value(x)   vb == BExact(v) IN
+  CASE op = "asinh" ->
+         IF v.mag = <<>> THEN Chk(ExactValue(r, DZero), "C18", "asinh_zero")
+         ELSE IF ~AbsLeqPow2(v, 60) THEN {Skip}
+         ELSE IF ~Valid(r.x) THEN Fail("C18", "asinh_not_valid")
+         ELSE IF ~AbsLeqPow2(Value(r.x), 6) THEN Fail("C18", "asinh_bound")          \* asinh(2^60) < 43
+         ELSE LET rv == Value(r.x)
+                  dl == BAdd(BScale2(BAbs(Fuzzy(rv, 40)), -100), BPow2(-98))
+                  E == BExp(BExact(rv))
+                  \* sinh increasing:  v <= sinh(r + d)  <=>  2 v E+ <= E+^2 - 1
+                  T(d) == LET Eu == BMul(E, ExpTiny(BExact(d)))   Ed == BMul(E, ExpTiny(BExact(DNeg(d))))
+                              upper == Leq3(BMul(BScale2(vb, 1), Eu), BSub(BSqr(Eu), BInt(1)))
+                              lower == Leq3(BSub(BSqr(Ed), BInt(1)), BMul(BScale2(vb, 1), Ed))
+                          IN And3(upper, lower)
+              IN C01Of(r) \cup Verdict("C18", "asinh_bound", Decide(dl, T))
+    [] op = "acosh" ->
+         IF DCmp(v, DOne) < 0 THEN Chk(~Valid(r.x), "C18", "acosh_below_one_valid")
+         ELSE IF DCmp(v, DOne) = 0 THEN Chk(ExactValue(r, DZero), "C18", "acosh_one")
+         ELSE IF ~AbsLeqPow2(v, 60) THEN {Skip}
+         ELSE IF ~Valid(r.x) THEN Fail("C18", "acosh_not_valid")
+         ELSE IF ~AbsLeqPow2(Value(r.x), 6) THEN Fail("C18", "acosh_bound")
+         ELSE LET rv == Value(r.x) IN
+              IF rv.mag = <<>> \/ rv.neg THEN Fail("C18", "acosh_bound")
+              ELSE IF DMsb(rv) < -30 THEN Undecided("C18", "acosh_bound_near_one")
+              ELSE LET rf == Fuzzy(rv, 30)
+                       dl == BScale2(BAdd(rf, BRecip(rf)), -100)                 \* 2^-100 (A + 1/A)
+                       E == BExp(BExact(rv))
+                       \* cosh increasing on [0, inf):  v <= cosh(r + d) <=> 2 v E+ <= E+^2 + 1
+                       T(d) == LET Eu == BMul(E, ExpTiny(BExact(d)))   Ed == BMul(E, ExpTiny(BExact(DNeg(d))))
+                                   upper == Leq3(BMul(BScale2(vb, 1), Eu), BAdd(BSqr(Eu), BInt(1)))
+                                   lower == Or3(Leq3(BExact(DSub(rv, d)), BInt(0)),
+                                                Leq3(BAdd(BSqr(Ed), BInt(1)), BMul(BScale2(vb, 1), Ed)))
+                               IN And3(upper, lower)
+                   IN C01Of(r) \cup Verdict("C18", "acosh_bound", Decide(dl, T))
+    [] op = "atanh" ->
+         IF DCmpAbs(v, DOne) >= 0 THEN Chk(~Valid(r.x), "C18", "atanh_out_of_domain_valid")
+         ELSE IF v.mag = <<>> THEN Chk(ExactValue(r, DZero), "C18", "atanh_zero")
+         ELSE IF DCmpAbs(v, DSub(DOne, DPow2(-10))) > 0 THEN {Skip}
+         ELSE IF ~Valid(r.x) THEN Fail("C18", "atanh_not_valid")
+         ELSE IF ~AbsLeqPow2(Value(r.x), 3) THEN Fail("C18", "atanh_bound")          \* atanh(1 - 2^-10) < 3.9
+         ELSE LET rv == Value(r.x)
+                  dl == BAdd(BScale2(BAbs(Fuzzy(rv, 40)), -100), BPow2(-101))
+                  E2 == BExp(BExact(DScale2(rv, 1)))
+                  \* tanh increasing:  v <= tanh(r + d) <=> v (E2+ + 1) <= E2+ - 1
+                  T(d) == LET Eu == BMul(E2, ExpTiny(BExact(DScale2(d, 1))))   Ed == BMul(E2, ExpTiny(BExact(DNeg(DScale2(d, 1)))))
+                              upper == Leq3(BMul(vb, BAdd(Eu, BInt(1))), BSub(Eu, BInt(1)))
+                              lower == Leq3(BSub(Ed, BInt(1)), BMul(vb, BAdd(Ed, BInt(1))))
+                          IN And3(upper, lower)
+              IN C01Of(r) \cup Verdict("C18", "atanh_bound", Decide(dl, T))
+
+\* ==========================================================================
+\* C12  constants, extremes, angle conversions
+ConstBall(name) ==
+  CASE name = "E" -> BExp(BInt(1))
+    [] name = "FRAC_1_PI" -> BRecip(PiB)
+    [] name = "FRAC_2_PI" -> BScale2(BRecip(PiB), 1)
+    [] name = "FRAC_2_SQRT_PI" -> BScale2(BRecip(BSqrt(PiB)), 1)
+    [] name = "FRAC_1_SQRT_2" -> BSqrt(BExact(DPow2(-1)))
+    [] name = "FRAC_PI_2" -> BScale2(PiB, -1)
+    [] name = "FRAC_PI_3" -> BDivInt(PiB, 3)
+    [] name = "FRAC_PI_4" -> BScale2(PiB, -2)
+    [] name = "FRAC_PI_6" -> BDivInt(PiB, 6)
+    [] name = "FRAC_PI_8" -> BScale2(PiB, -3)
+    [] name = "LN_2" -> Ln2B
+    [] name = "LN_10" -> Ln10B
+    [] name = "LOG2_E" -> InvLn2B
+    [] name = "LOG10_E" -> InvLn10B
+    [] name = "LOG10_2" -> BMul(Ln2B, InvLn10B)
+    [] name = "LOG2_10" -> BMul(Ln10B, InvLn2B)
+    [] name = "PI" -> PiB
+    [] name = "SQRT_2" -> BSqrt(BInt(2))
+    [] name = "TAU" -> BScale2(PiB, 1)
+MathConstNames == {"E", "FRAC_1_PI", "FRAC_2_PI", "FRAC_2_SQRT_PI", "FRAC_1_SQRT_2", "FRAC_PI_2", "FRAC_PI_3", "FRAC_PI_4",
+                   "FRAC_PI_6", "FRAC_PI_8", "LN_2", "LN_10", "LOG2_E", "LOG10_E", "LOG10_2", "LOG2_10", "PI", "SQRT_2", "TAU"}
+
+ConstFails(name, r) ==
+  IF r.t # "tf" THEN Fail("C12", "const_panics")
+  ELSE CASE name \in MathConstNames ->
+              LET c == CorrectDD(ConstBall(name)) IN
+              IF ~c.ok THEN Undecided("C12", "constant_rounding") ELSE Chk(r.x = c.x, "C12", "constant_not_correctly_rounded") \cup C01Of(r)
+         [] name = "MAX" -> Chk(r.x.hi = MaxFinite(FALSE) /\ Valid(r.x) /\ r.x.lo.k = "f" /\ ~r.x.lo.neg
+                                /\ ~NoOverlapDef(r.x.hi, NextUpMag(r.x.lo)), "C12", "max_not_largest_valid")
+         [] name = "MIN" -> Chk(r.x.hi = MaxFinite(TRUE) /\ Valid(r.x) /\ r.x.lo.k = "f" /\ r.x.lo.neg
+                                /\ ~NoOverlapDef(r.x.hi, NextUpMag(r.x.lo)), "C12", "min_not_smallest_valid")
+         [] name = "MIN_POSITIVE" -> Chk(ExactValue(r, DPow2(EMIN)), "C12", "min_positive")
+         [] name = "NAN" -> Chk(r.x.hi.k = "n", "C12", "nan_constant")
+         [] name = "INFINITY" -> Chk(~Valid(r.x) /\ r.x.hi = Inf(FALSE), "C12", "infinity_constant")
+         [] name = "NEG_INFINITY" -> Chk(~Valid(r.x) /\ r.x.hi = Inf(TRUE), "C12", "neg_infinity_constant")
+         [] name = "ZERO" -> Chk(r.x = TF(Zero(FALSE), Zero(FALSE)), "C10", "zero_constant")
+         [] name = "ONE" -> Chk(ExactValue(r, DOne) /\ IsZeroW(r.x.lo), "C10", "one_constant")
+         [] name = "NEG_ZERO" -> Chk(r.x.hi = Zero(TRUE) /\ IsZeroW(r.x.lo), "C10", "neg_zero_constant")
+         [] OTHER -> {}
+
+\* |r pi - 180 v| 2^106 <= 6 * 180 |v|   (to_degrees);   |180 r - pi v| 2^106 <= 6 pi |v|   (to_radians)
+AngleFails(op, x, r) ==
+  IF ~InDomNZ(x, -450, 450) THEN (IF InDom(x, -450, 450) THEN C01Of(r) ELSE {Skip})
+  ELSE IF r.t # "tf" THEN Fail("C12", op \o "_panics")
+  ELSE IF ~Valid(r.x) THEN Fail("C12", op \o "_not_valid")
+  ELSE LET v == Value(x)   rv == Value(r.x)
+           six == [neg |-> FALSE, mag |-> <<6>>, e |-> -106]
+       IN C01Of(r) \cup
+          (IF op = "to_degrees"
+           THEN Verdict("C12", "to_degrees_bound",
+                        Leq3(BAbs(BSub(BMulD(PiB, rv), BExact(DMul(DInt(180), v)))), BExact(DMul(six, DMul(DInt(180), DAbs(v))))))
+           ELSE Verdict("C12", "to_radians_bound",
+                        Leq3(BAbs(BSub(BExact(DMul(DInt(180), rv)), BMulD(PiB, v))), BMulD(PiB, DMul(six, DAbs(v))))))
+
+\* ==========================================================================
 ElemFails(fam, op, A, r) ==
   CASE op = "fma" -> FmaFails(A, r)
-    [] op = "powi" -> PowiStructFails(A[1].x, A[2], r) \cup (IF InDom(A[1].x, -1000, 1000) THEN C01Of(r) ELSE {})
-    [] op \in {"to_degrees", "to_radians"} -> IF InDom(A[1].x, -1000, 1000) THEN C01Of(r) ELSE {Skip}
-    [] op = "const" -> IF r.t = "tf" /\ r.x.hi.k = "f" THEN C01Of(r) ELSE {}
+    [] op = "powi" -> PowiFails(A[1].x, A[2], r)
+    [] op \in {"to_degrees", "to_radians"} -> AngleFails(op, A[1].x, r)
+    [] op = "const" -> ConstFails(A[1].v, r)
+    [] op = "sqrt" -> SqrtFails(A[1].x, r)
+    [] op = "cbrt" -> CbrtFails(A[1].x, r)
+    [] op = "hypot" -> HypotFails(A[1].x, A[2].x, r)
+    [] op = "exp" -> ExpFails(A[1].x, r)
+    [] op = "exp2" -> Exp2Fails(A[1].x, r)
+    [] op = "exp_m1" -> ExpM1Fails(A[1].x, r)
+    [] op = "powf" -> PowfFails(A[1].x, IF A[2].t = "tf" THEN A[2].x ELSE TF(A[2].w, Zero(FALSE)), A[3].x, r)
+    [] op \in {"ln", "log2", "log10"} -> LogFails(op, A[1].x, r)
+    [] op = "ln_1p" -> Ln1pFails(A[1].x, r)
+    [] op = "log" -> IF LogDomain(A[1].x) /\ LogDomain(A[2].x) /\ Pos(A[1].x) /\ Pos(A[2].x)
+                        /\ DCmp(Value(A[2].x), DOne) # 0 THEN C01Of(r) ELSE {Skip}
+    [] op \in {"sin", "cos", "tan", "sin_cos"} -> TrigFails(op, A[1].x, r)
+    [] op = "asin" -> AsinFails(A[1].x, r)
+    [] op = "acos" -> AcosFails(A[1].x, r)
+    [] op = "atan" -> AtanFails(A[1].x, r)
+    [] op = "atan2" -> Atan2Fails(A[1].x, A[2].x, r)
+    [] op \in {"sinh", "cosh", "tanh"} -> HypFwdFails(op, A[1].x, r)
+    [] op \in {"asinh", "acosh", "atanh"} -> HypInvFails(op, A[1].x, r)
     [] OTHER -> {<<"tool", "unknown_elem_op">>}
 =============================================================================
